@@ -499,6 +499,8 @@ class Sim:
         self.steps = 0
         self.timers = []
         self.fromthread = collections.deque()
+        self.cb_delays = None  # fault 'slow reactor': virtual delays a thread->reactor callback may wait (FIFO kept)
+        self._cb_ready = 0.0
         self._soon = collections.deque()
         self.conns = []
         self.listeners = {}
@@ -547,7 +549,7 @@ class Sim:
         tb = traceback.extract_tb(exc.__traceback__)
         inner = tb[-1].filename if tb else ''
         here = os.path.dirname(os.path.dirname(os.path.abspath(__file__)))
-        if type(exc).__name__ == 'Stop' or inner.startswith(here):
+        if type(exc).__name__ == 'Stop' or (inner.startswith(here) and not getattr(exc, 'sim_injected', False)):
             raise exc  # a bug (or the stop signal) of the harness itself: never swallowed
         self.count('reactor.unhandled_error')
         self.unhandled.append((self.steps, kind, label, repr(exc), f'{inner}:{tb[-1].lineno if tb else 0}'))
@@ -588,8 +590,8 @@ class Sim:
         now = self.now
         for ent in self._soon:
             ev.append((0, ent[0], 'soon', ent[1], ent))
-        if self.fromthread:
-            seq, fn = self.fromthread[0]
+        if self.fromthread and self.fromthread[0][2] <= now + 1e-12:
+            seq, fn, _ready = self.fromthread[0]
             ev.append((1, seq, 'fromthread', getattr(fn, '__name__', 'f'), fn))
         for dc in self.timers:
             if dc.getTime() <= now + 1e-12:
@@ -609,6 +611,8 @@ class Sim:
 
     def next_time(self):
         ts = [dc.getTime() for dc in self.timers]
+        if self.fromthread:
+            ts.append(self.fromthread[0][2])
         ts += [t for t in (c.next_time() for c in self.conns) if t is not None]
         ts += [t for t in (th.next_time() for th in self.threads) if t is not None]
         ts += [t for t in (a.next_time(self.now) for a in self.actors) if t is not None]
@@ -735,7 +739,15 @@ class SimReactor:
             g.__name__ = _fname(f)
         else:
             g = f
-        sim.fromthread.append((sim.seq, g))
+        ready = sim.now
+        if sim.cb_delays:
+            d = sim.cb_delays[sim.ch.choose('sched.slow_reactor', len(sim.cb_delays))]
+            if d:
+                sim.count('fault.slow_reactor_callback')
+                ready = sim.now + d
+        ready = max(ready, sim._cb_ready)  # callbacks from threads keep their order
+        sim._cb_ready = ready
+        sim.fromthread.append((sim.seq, g, ready))
 
     def callInThread(self, f, *args, **kw):
         self.sim.pool.callInThread(f, *args, **kw)
